@@ -328,6 +328,16 @@ func check(c *pbt.Ctx, cs Case) {
 	if len(out) > 4096 {
 		c.Class("document>4096")
 	}
+	// the same conversion from several goroutines at once on the one converter gives what it gives alone
+	if cs.Unknown&7 == 5 || len(cs.Msg)%8 == 3 {
+		c.Step("the same p2j conversion from 8 goroutines at once")
+		c.Class("concurrent-callers")
+		if d := pbt.Concurrently(8, 40, keep, false, func() ([]byte, error) {
+			return cv.Do(context.Background(), desc, append(make([]byte, 0, len(in)+16), in...))
+		}); d != "" {
+			c.Failf("concurrent-differs", "p2j called concurrently on one converter differs from the call alone: %s", d)
+		}
+	}
 
 	rep, mp, wide := false, false, false
 	ref.Range(func(fd protoreflect.FieldDescriptor, v protoreflect.Value) bool {
